@@ -14,7 +14,7 @@ def run(ctx, idx):
     A = K.anchors(idx)
     ctx.assume("operation table of Engine D (see C20); third-party code raises nothing on well-typed arguments; six.raise_from and sys.exit do not return")
     ctx.rule("C13.a", "Cleaners are total: for every Parameter.clean and every raw kind the escape set ⊆ subclasses of MPilotError.")
-    ctx.rule("C13.b", "Run boundary: Command.run's try covers validate_params and execute, catches Exception, re-raises MPilotError unchanged and raises UnexpectedError (a ProgramError) from everything else; every explicit raise reachable from from_source / Program.run outside that handler is SyntaxError or an MPilotError subclass.")
+    ctx.rule("C13.b", "Run boundary: Command.run's try covers validate_params and execute, catches Exception, re-raises MPilotError unchanged and raises UnexpectedError (a ProgramError) from everything else; inside any handler an attribute read on the caught error exists for every class the handler admits; every explicit raise reachable from from_source / Program.run outside that handler is SyntaxError or an MPilotError subclass.")
     ctx.rule("C13.c", "Lexer and parser callbacks: t_error and p_error raise SyntaxError on every path; numeric token functions cannot raise (token language ⊆ builtin's language); string decoding is guarded.")
     ctx.rule("C13.d", "Exception classes construct: each super(K, self).__init__ inside class C has K is C (or a base of C) and its arguments fit the base signature.")
     ctx.rule("C13.e", "CLI handler: main's try contains the from_source and run calls; the handler catches the root MPilotError; every path through it writes six.text_type(ex) to stderr and reaches sys.exit with a non-zero constant.")
@@ -120,6 +120,7 @@ def run(ctx, idx):
         other = [n for n in c.find("raise") if n not in rz]
         ok = c.exit not in c.reachable() and rz and not other
         ctx.ob("C13.c", con, rel, fn.lineno, ok, "SyntaxError on every path" if ok else "%s can return normally or raise another type" % nm)
+    handler_attribute_reads(ctx, idx, "C13.b")
     grammar_action_types(ctx, idx, "C13.c", lexicon)
     from .C10 import error_callbacks_total
     error_callbacks_total(ctx, idx, "C13.c", lexicon)
@@ -191,6 +192,95 @@ def run(ctx, idx):
             ok = True
             why = "except MPilotError: message to stderr, sys.exit(non-zero) on every path"
     ctx.ob("C13.e", con, K.rel(cli), cli.node.lineno, ok, why)
+
+
+BASE_EXC_ATTRS = {"args", "with_traceback", "__traceback__", "__cause__", "__context__", "__class__", "__doc__", "__dict__", "__module__", "__suppress_context__", "__notes__", "add_note"}
+
+
+def instance_attrs(idx, ci):
+    """names defined on instances of a package class: class attributes, methods and `self.X = ...` stores along the MRO"""
+    out = set(BASE_EXC_ATTRS)
+    for c in idx.mro(ci):
+        if not hasattr(c, "methods"):
+            continue
+        out |= set(c.attrs) | set(c.methods)
+        for m in c.methods.values():
+            sn = K.self_name(m)
+            for n in ast.walk(m.node):
+                if isinstance(n, ast.Attribute) and isinstance(n.ctx, ast.Store) and isinstance(n.value, ast.Name) and n.value.id == sn:
+                    out.add(n.attr)
+    return out
+
+
+def handler_attribute_reads(ctx, idx, rule):
+    """Inside an `except ... as e` handler an attribute read on `e` must exist for every class the handler (narrowed by
+    the enclosing isinstance tests) admits - otherwise the handler itself fails with AttributeError."""
+    n_sites = 0
+    for f in idx.funcs:
+        if getattr(f, "absorbed", False):
+            continue
+        for h in [n for n in own_nodes(f.node) if isinstance(n, ast.ExceptHandler) and n.name and n.type is not None]:
+            tnodes = h.type.elts if isinstance(h.type, ast.Tuple) else [h.type]
+            base = []
+            for t in tnodes:
+                r = idx.resolve(f.module, t, f)
+                base.append(r[1] if r and r[0] == "class" else None)
+
+            def visit(node, narrowed):
+                nonlocal n_sites
+                if isinstance(node, ast.If):
+                    nb = narrow(node.test, narrowed)
+                    visit(node.test, narrowed)
+                    for st in node.body:
+                        visit(st, nb)
+                    for st in node.orelse:
+                        visit(st, narrowed)
+                    return
+                if isinstance(node, ast.BoolOp) and isinstance(node.op, ast.And):
+                    cur = narrowed
+                    for v in node.values:
+                        visit(v, cur)
+                        cur = narrow(v, cur)
+                    return
+                if isinstance(node, ast.IfExp):
+                    visit(node.test, narrowed)
+                    visit(node.body, narrow(node.test, narrowed))
+                    visit(node.orelse, narrowed)
+                    return
+                if isinstance(node, ast.Attribute) and isinstance(node.ctx, ast.Load) and isinstance(node.value, ast.Name) and node.value.id == h.name:
+                    n_sites += 1
+                    con = "%s::handler(%s).%s" % (f.key, h.name, node.attr)
+                    if any(c is None for c in narrowed):
+                        ok = node.attr in BASE_EXC_ATTRS
+                        lacking = ["a class outside the package"] if not ok else []
+                    else:
+                        lacking = sorted({sc.name for c in narrowed for sc in idx.subclasses(c) if node.attr not in instance_attrs(idx, sc)})
+                        ok = not lacking
+                    ctx.ob(rule, con, K.rel(f), node.lineno, ok, "`%s.%s` exists for every admitted class" % (h.name, node.attr) if ok else
+                           "`%s.%s` is read on a caught error that may be %s, which has no such attribute: the handler fails with AttributeError and the error is no longer reported as an MPilot error" % (h.name, node.attr, ", ".join(lacking[:4])))
+                for c in ast.iter_child_nodes(node):
+                    if isinstance(c, (ast.FunctionDef, ast.Lambda, ast.ClassDef)):
+                        continue
+                    visit(c, narrowed)
+
+            def narrow(test, narrowed):
+                if isinstance(test, ast.Call) and isinstance(test.func, ast.Name) and test.func.id == "isinstance" and len(test.args) == 2 and isinstance(test.args[0], ast.Name) and test.args[0].id == h.name:
+                    ts = test.args[1].elts if isinstance(test.args[1], ast.Tuple) else [test.args[1]]
+                    out = []
+                    for t in ts:
+                        r = idx.resolve(f.module, t, f)
+                        out.append(r[1] if r and r[0] == "class" else None)
+                    return out
+                if isinstance(test, ast.BoolOp) and isinstance(test.op, ast.And):
+                    cur = narrowed
+                    for v in test.values:
+                        cur = narrow(v, cur)
+                    return cur
+                return narrowed
+
+            for st in h.body:
+                visit(st, base)
+    return n_sites
 
 
 def K_const(idx, fi, e):
